@@ -60,7 +60,7 @@ class_preamble.witness = _cls_witness
 CONTRACTS = [class_preamble]
 
 # ------------------------------------------------------------------------------------------- emit.function (C03 / C16 / C06: the whole constructor)
-_FN_OPAQUE = {"to_docstring": {"ret": "str"}, "ast_parse_fix": {"ret": ("obj", "ast.expr")}, "ast.parse": {"ret": ("obj", "ast.Module")}}
+_FN_OPAQUE = {"to_docstring": {"ret": "str", "havoc_prose": True}, "ast_parse_fix": {"ret": ("obj", "ast.expr")}, "ast.parse": {"ret": ("obj", "ast.Module")}}
 _S1 = ("node", "ast.Pass", {})
 _S2 = ("node", "ast.Expr", {"value": ("node", "ast.Constant", {"value": 1, "kind": None})})
 _SR = ("node", "ast.Return", {"value": ("node", "ast.Constant", {"value": 0, "kind": None})})
@@ -287,6 +287,6 @@ function_signature_roundtrip = Contract(
     ],
     canaries=["result['params']['p1']['default'] == 0"],
 )
-function_signature_roundtrip.opaque = {"to_docstring": {"ret": "str"}, "ast_parse_fix": {"ret": ("obj", "ast.expr")}, "get_docstring": {"ret": "none"},
+function_signature_roundtrip.opaque = {"to_docstring": {"ret": "str", "havoc_prose": True}, "ast_parse_fix": {"ret": ("obj", "ast.expr")}, "get_docstring": {"ret": "none"},
                                        "to_code": {"ret": "str"}, "_to_code": {"ret": "str"}}
 CONTRACTS.append(function_signature_roundtrip)
